@@ -292,6 +292,37 @@ def new_solver(ctx, extra_axioms=()):
     return s
 
 
+CROSS = {'n': 0, 'agree': 0, 'disagree': [], 'inconclusive': 0}
+
+
+def cross_check(s, verdict):
+    """thorough tier: re-decide the query with a second solver build (/usr/bin/z3 4.8.12 CLI, SMT-LIB2 text);
+    an `(error` line or a timeout is inconclusive, a different verdict is a disagreement"""
+    import subprocess, tempfile
+    if os.environ.get('VERIF_M_CROSS') != '1':
+        return None
+    # large obligations (thousands of queries) are cross-checked on a deterministic 1-in-N sample
+    CROSS['n'] += 1
+    mod = int(os.environ.get('VERIF_M_CROSS_MOD', '1'))
+    if mod > 1 and CROSS['n'] % mod != 0:
+        return None
+    txt = '(set-logic ALL)\n' + s.to_smt2()
+    with tempfile.NamedTemporaryFile('w', suffix='.smt2', delete=False, dir=os.path.join(VERIF, '.build')) as f:
+        f.write(txt)
+        path = f.name
+    try:
+        r = subprocess.run(['/usr/bin/z3', '-T:180', 'smt.arith.solver=2', path], capture_output=True, text=True, timeout=200)
+        out = r.stdout.strip().split('\n')
+        ans = out[0].strip() if out else ''
+        if '(error' in r.stdout or ans not in ('sat', 'unsat'):
+            return 'inconclusive'
+        return 'agree' if ans == verdict else 'disagree'
+    except Exception:
+        return 'inconclusive'
+    finally:
+        os.remove(path)
+
+
 def decide(ctx, pc, neg, label, make_cex, realize=(), roles=(), oracle_defs=()):
     """unsat -> held. sat -> re-solve with realisable address fields, build the counterexample.
     Known-finding roles: the violation query excludes every open role; each role is queried separately."""
@@ -306,6 +337,10 @@ def decide(ctx, pc, neg, label, make_cex, realize=(), roles=(), oracle_defs=()):
         s.add(z3.Not(rformula))
     r = s.check()
     rec = {'label': label, 'solver_s': 0.0}
+    if r in (z3.sat, z3.unsat):
+        cc = cross_check(s, 'sat' if r == z3.sat else 'unsat')
+        if cc:
+            rec['cross'] = cc
     if r == z3.unsat:
         rec['status'] = 'unsat'
     elif r == z3.unknown:
@@ -1196,6 +1231,15 @@ def c06_glue(prog, lmax):
             # every dedicated parser is handed the whole, unchanged input
             if any(not (c[1] is inp or (isinstance(c[1], Str) and c[1].buf is inp.buf and c[1].start is inp.start and c[1].end is inp.end)) for c in calls):
                 why = 'a dedicated parser is called on something other than the input'
+            if r2 is None:
+                # the v2 parser was not consulted on this path: the decision table cannot be evaluated on abstract
+                # results. Candidate violation (a possible v2 header handed to the text parser's verdict), confirmed or
+                # refuted natively on the glue corpus; if it does not reproduce the path is reported inconclusive.
+                rec['status'] = 'sat'
+                rec['cex'] = {'runs': [], 'violated_if': 'glue_table', 'glue': True, 'unconfirmed_is_inconclusive': True,
+                              'summary': 'HeaderResult::parse decides without consulting the v2 parser (v1 result %r)' % (r1,)}
+                recs.append(rec)
+                continue
             v2ok = r2.variant == 'Ok'
             v2inc = (not v2ok) and r2.fields[0].variant in V2_INC
             if v2ok or v2inc:
@@ -1429,5 +1473,16 @@ def c20_builder_t(prog, lmax):
     return _builder(prog, {'C20', 'C10'}, 'c20_histories', 3)
 
 
+def c07_builder_q(prog, lmax):
+    # wire format of the constructors (unspecified via new, IPv4, Unix with sparse symbolic content) + one write,
+    # with TLV value lengths as unbounded integers (complements the Kani harnesses' literal lengths)
+    return _builder(prog, {'C10'}, 'c07_wire_format', 1)
+
+
+def c07_builder_t(prog, lmax):
+    return _builder(prog, {'C10'}, 'c07_wire_format', 2)
+
+
+SPECS['C07'] = {'kinds': [], 'lmax': {'quick': 0, 'thorough': 0}, 'modular': 'c07_builder_q', 'modular_thorough': 'c07_builder_t', 'obligations': [], 'no_v1': True}
 for _pid, _q, _t in (('C09', 'c09_builder_q', 'c09_builder_t'), ('C10', 'c10_builder_q', 'c10_builder_t'), ('C20', 'c20_builder_q', 'c20_builder_t')):
     SPECS[_pid] = {'kinds': [], 'lmax': {'quick': 0, 'thorough': 0}, 'modular': _q, 'modular_thorough': _t, 'obligations': [], 'no_v1': True}
